@@ -327,11 +327,8 @@ fn apply<E: Elem, V: VecLike<E>>(slot: &mut Option<V>, world: u8, act: VAct, lab
         }
         VAct::VecMacro { n: k, repeat } => {
             let nv = if repeat {
-                // vec![x; n] clones: expressed through resize on a fresh vector in both worlds' own macro is
-                // not nameable generically; use with_cap + resize (same clone discipline)
-                let mut t = vec.with_cap(0);
-                t.v_resize(k as usize, E::mk(world, labels.take(), 1));
-                t
+                // vec![x; n]: n-1 clones and the original
+                vec.repeat_like(E::mk(world, labels.take(), 1), k as usize)
             } else {
                 let items: Vec<E> = {
                     let _g = Callback::enter();
